@@ -24,16 +24,16 @@ type OutItem struct {
 
 // Behaviour scripts one launch attempt.
 type Behaviour struct {
-	StartErr     bool      `json:"startErr,omitempty"`
-	Out          []OutItem `json:"out,omitempty"`
-	ExitMode     string    `json:"exitMode"`             // "auto" | "signal"
-	AfterTicks   int       `json:"afterTicks,omitempty"` // auto: exits that many ticks after start
-	Code         int       `json:"code"`                 // exit code of a spontaneous exit
-	DiesOn       string    `json:"diesOn,omitempty"`     // "any" (default) | "kill" (only signal 9)
-	StopLatency  int       `json:"stopLatency,omitempty"`
-	SigCode      int       `json:"sigCode,omitempty"` // exit code when killed by a signal
-	BurstAtExit  int       `json:"burstAtExit,omitempty"`
-	LoseOnWait   bool      `json:"-"`
+	StartErr    bool      `json:"startErr,omitempty"`
+	Out         []OutItem `json:"out,omitempty"`
+	ExitMode    string    `json:"exitMode"`             // "auto" | "signal"
+	AfterTicks  int       `json:"afterTicks,omitempty"` // auto: exits that many ticks after start
+	Code        int       `json:"code"`                 // exit code of a spontaneous exit
+	DiesOn      string    `json:"diesOn,omitempty"`     // "any" (default) | "kill" (only signal 9)
+	StopLatency int       `json:"stopLatency,omitempty"`
+	SigCode     int       `json:"sigCode,omitempty"` // exit code when killed by a signal
+	BurstAtExit int       `json:"burstAtExit,omitempty"`
+	LoseOnWait  bool      `json:"-"`
 }
 
 var (
@@ -94,22 +94,22 @@ type Cmd struct {
 	B       Behaviour
 	Argv    []string
 
-	mu        sync.Mutex
-	started   bool
-	dead      bool
-	exitCode  int
-	exited    chan struct{}
-	env       []string
-	dir       string
-	outW      *io.PipeWriter
-	outR      *io.PipeReader
-	errW      *io.PipeWriter
-	errR      *io.PipeReader
-	firstSig  time.Time
-	sigSeen   bool
-	dying     bool
-	Written   []OutItem // lines actually written (C11 ground truth)
-	writeMu   sync.Mutex
+	mu       sync.Mutex
+	started  bool
+	dead     bool
+	exitCode int
+	exited   chan struct{}
+	env      []string
+	dir      string
+	outW     *io.PipeWriter
+	outR     *io.PipeReader
+	errW     *io.PipeWriter
+	errR     *io.PipeReader
+	firstSig time.Time
+	sigSeen  bool
+	dying    bool
+	Written  []OutItem // lines actually written (C11 ground truth)
+	writeMu  sync.Mutex
 }
 
 func New(proc string, inst int64, attempt int, argv []string, b Behaviour) *Cmd {
